@@ -1,9 +1,10 @@
 (** Extraction of every executable model. ExtrOcamlBasic only; numbers stay
     Coq's binary [positive]/[N]/[Z]; no Extract Constant. *)
 From Coq Require Import Extraction ExtrOcamlBasic.
-From Verif Require Import Base.Generic Persist.ShardIdComp Txcache.PoolComp.
+From Verif Require Import Time.TimeCacheComp Base.Generic Persist.ShardIdComp Txcache.PoolComp.
 Extraction Language OCaml.
 Separate Extraction
   Generic.run_steps
+  TimeCacheComp.timecache_component
   ShardIdComp.shardid_component
   PoolComp.pool_component.
